@@ -210,4 +210,15 @@ CHECKS = {
            "process-independent)."),
   "design_ref": "DESIGN.md §5 C12", "note": _NOTE,
   "technique": "static analysis: effect analysis over frozen abstract models, set-iteration-order sensitivity by dual evaluation, who-may-call check for nondeterministic sources, encoding arguments of every stream"},
+ "C11": {
+  "text": ("Translation validation of the Clafer export: ClaferWriter.transform is evaluated from source on abstract models "
+           "of the Clafer fragment (children individually mandatory/optional, or one xor/or/mux/a..b group over the "
+           "well-formed cardinality domain, under a mandatory and an optional parent, root groups; bool/int/float/str "
+           "attributes; constraints over each of the eight logical operators at three positions); the text is read by an "
+           "interpreter of the emitted Clafer subset written in the checker and its instances over all 2^n selections must "
+           "equal the model's configurations; every name used in a constraint or attribute line is declared with the same "
+           "identifier; attribute types declared as the value kinds imply. Not decided: models larger than the family; "
+           "Clafer constructs outside the emitted subset."),
+  "design_ref": "DESIGN.md §5 C11", "note": _NOTE + " The Clafer-subset interpreter in sa/exports.py is part of the trusted base.",
+  "technique": "static analysis + translation validation: writer AST evaluated on abstract models, emitted text decided by an independent Clafer-subset interpreter over all selections; declaration/use identifier agreement"},
 }
